@@ -179,7 +179,7 @@ def make_settings(scenario):
 
 
 def run_session(scenario, schedule, clients=None, fault=None, kernel_hook=None, max_steps=400000, keep_log=False,
-                clients_required=True, trace=None):
+                clients_required=True, trace=None, server_obj=None):
     """Runs one simulated session. clients: optional list of 4 callables (seat -> task function) overriding the
     reference clients.  Returns a Result with: outcome (kernel Outcome), server_exc, client_exc {seat: exc},
     lines {conn label: [(dir, text)]}, sends (raw), output_text (or None), accept_order, client_state."""
@@ -205,8 +205,14 @@ def run_session(scenario, schedule, clients=None, fault=None, kernel_hook=None, 
     inst = Installed(kernel, net)
     inst.install()
     try:
-        server = Server(ip_address=ADDR[0], port=ADDR[1], output_file_path=pathlib.Path(out_path),
-                        board_settings=make_settings(scenario))
+        if server_obj is None:
+            server = Server(ip_address=ADDR[0], port=ADDR[1], output_file_path=pathlib.Path(out_path),
+                            board_settings=make_settings(scenario))
+        else:
+            # a Server object that has already hosted a session hosts another one (its public attributes say what and where)
+            server = server_obj
+            server.board_settings, server.output_file_path = make_settings(scenario), pathlib.Path(out_path)
+        res.server = server
 
         def server_main():
             try:
